@@ -180,9 +180,11 @@ Record proxy := mkProxy {
 Record sconn := mkSconn {
   sc_cmd : Z; sc_buf : list Z;                    (* m_command; the bytes of m_out_buffer that were read as protocol messages *)
   sc_want : Z; sc_off : Z; sc_got : list Z; sc_next : Z;  (* the asio::async_read in progress: size, offset in m_out_buffer, received, continuation *)
-  sc_udp_ep : endpoint                             (* m_udp_associate_ep: where the client's datagrams come from *)
+  sc_udp_ep : endpoint;                            (* m_udp_associate_ep: where the client's datagrams come from *)
+  sc_names : list (addr * list Z);                 (* m_name_mapping (a bimap: each address and each name at most once) *)
+  sc_pending : zmap (list Z * list Z); sc_npending : Z   (* datagrams waiting for the UDP resolver: (payload, name) *)
 }.
-#[export] Instance eta_sconn : Settable _ := settable! mkSconn <sc_cmd; sc_buf; sc_want; sc_off; sc_got; sc_next; sc_udp_ep>.
+#[export] Instance eta_sconn : Settable _ := settable! mkSconn <sc_cmd; sc_buf; sc_want; sc_off; sc_got; sc_next; sc_udp_ep; sc_names; sc_pending; sc_npending>.
 Record socks := mkSocks {
   so_node : Z; so_version : Z; so_flags : Z; so_bind_port : Z; so_counts : list Z; so_nconn : Z; so_close : bool;
   so_conns : zmap sconn
